@@ -67,6 +67,7 @@ fn cmap4_well_formed(t: &Cmap4) -> bool {
 
 // @bound Cmap4 on 40 symbolic bytes, segCount <= 3, every u32 codepoint; unwind 6
 // @c20
+// @c01
 #[cfg_attr(kani, kani::proof)]
 #[cfg_attr(kani, kani::unwind(6))]
 pub fn c08_cmap4_lookup_matches_spec() {
@@ -93,6 +94,7 @@ pub fn c08_cmap4_lookup_matches_spec() {
 
 // @bound Cmap4Iter on 32 symbolic bytes, segCount <= 2, first 3 items; unwind 8
 // @c20
+// @c01
 #[cfg_attr(kani, kani::proof)]
 #[cfg_attr(kani, kani::unwind(8))]
 pub fn c08_cmap4_iter_matches_lookup() {
@@ -140,6 +142,7 @@ fn spec_cmap12(t: &Cmap12, c: u32) -> u32 {
 
 // @bound Cmap12 on 52 symbolic bytes (<= 3 groups), every u32 codepoint; unwind 5
 // @c20
+// @c01
 #[cfg_attr(kani, kani::proof)]
 #[cfg_attr(kani, kani::unwind(5))]
 pub fn c08_cmap12_lookup_matches_spec() {
@@ -178,6 +181,7 @@ pub fn c08_cmap12_lookup_matches_spec() {
 
 // @bound Cmap12Iter on 40 symbolic bytes (<= 2 groups) with default limits, first 3 items: codepoints strictly ascend and never exceed char::MAX; unwind 6
 // @c20
+// @c01
 #[cfg_attr(kani, kani::proof)]
 #[cfg_attr(kani, kani::unwind(6))]
 pub fn c08_cmap12_iter_ascending() {
@@ -200,6 +204,7 @@ pub fn c08_cmap12_iter_ascending() {
 
 // @bound Cmap with 2 encoding records on 48 symbolic bytes: map_codepoint = first subtable (format 4/12) that maps; unwind 8
 // @c20
+// @c01
 // @timeout 600
 #[cfg_attr(kani, kani::proof)]
 #[cfg_attr(kani, kani::unwind(8))]
